@@ -129,10 +129,11 @@ fn digest(resp: &str) -> String {
             return format!("ok n={} h={}{}", body.matches(';').count() + 1, h, span);
         }
     };
-    let (mut h, mut sm, mut x) = (0xcbf29ce484222325u64, 0u64, 0u64);
+    // the sum is exact (u128): modulo 2^64 it would be blind to a shift of a whole block of 2^16 k ids by a multiple of 2^58
+    let (mut h, mut sm, mut x) = (0xcbf29ce484222325u64, 0u128, 0u64);
     for &v in &l {
         h = (h ^ v).wrapping_mul(1099511628211);
-        sm = sm.wrapping_add(v);
+        sm += v as u128;
         x ^= v;
     }
     format!("ok n={} h={} s={} x={}", l.len(), h, sm, x)
